@@ -17,6 +17,9 @@ type Step struct {
 	S   *dbh.Stmt      `json:"s,omitempty"`
 	J   *dbh.JoinQuery `json:"j,omitempty"`
 	End string         `json:"end,omitempty"` // "commit" | "abort" (last step of a transaction)
+	// Point: S is SELECT <all columns> WHERE <indexed column> = <constant>; it is executed through an explicit
+	// index point scan plan (the path an index join probe uses) instead of the plan the optimizer picks
+	Point bool `json:"point,omitempty"`
 }
 
 type Program struct {
@@ -24,6 +27,8 @@ type Program struct {
 	Init [][]dbh.Row    `json:"init"` // committed initial rows per table (column 0 = unique immutable id)
 	KB   int            `json:"kb"`
 	Txns [][]Step       `json:"txns"`
+	// Stats: table statistics are computed after the initial load, so that the optimizer may choose the index join
+	Stats bool `json:"stats,omitempty"`
 }
 
 // ---- transaction model -------------------------------------------------------------------------------
@@ -275,6 +280,12 @@ func runSchedule(p *Program, word []int, opt Options, res *Result) *vf.Failure {
 				return vf.Failf("load-error", "%v", err)
 			}
 		}
+		if p.Stats {
+			tm := db.Cat().GetTableByName(def.Name)
+			st := db.Begin()
+			tm.GetStatistics().Update(tm, st.T)
+			st.Commit()
+		}
 	}
 	m := NewModel(p)
 	txns := make([]*dbh.Txn, len(p.Txns))
@@ -337,6 +348,14 @@ func runSchedule(p *Program, word []int, opt Options, res *Result) *vf.Failure {
 			plan, sh, perr := t.PlanJoin(st.J)
 			shape, err = sh, perr
 			if plan != nil {
+				rows, err = t.RunPlan(plan)
+			}
+		} else if st.Point {
+			def := m.Defs[st.S.Table]
+			plan, perr := t.PointPlan(st.S.Table, def.ColIdx(st.S.Where.Col), *st.S.Where.V)
+			err = perr
+			if plan != nil {
+				shape = dbh.PlanShape(plan)
 				rows, err = t.RunPlan(plan)
 			}
 		} else {
